@@ -411,6 +411,7 @@ func runStringSweep(r *Run, id string, enums []strEnum, treeCheck bool) {
 					for i := lo; i < hi; i++ {
 						in := en.at(i)
 						hw.cur[w].Store(&in)
+						noteSlot(w, in)
 						f := c04Oracle(id, in, treeCheck, i%16 == 0 || en.count <= 300000)
 						hw.tick[w].Add(1)
 						r.evals.Add(1)
